@@ -622,8 +622,21 @@ class Doc:
             fy = length(attr("fy"), sh, None) if attr("fy") is not None else cy
             fr = length(attr("fr"), sd, "0%")
             if fr != 0:
-                raise Unsupported("fr")
-            if r <= 0:
+                # focal radius (SVG 2, canvas semantics): circles c(t) = f + t (c - f), r(t) = fr + t (r - fr); the colour at p
+                # is that of the largest t with r(t) >= 0 and |p - c(t)| = r(t)
+                if fr < 0 or r <= fr or math.hypot(fx - cx, fy - cy) + fr > r * 0.999:
+                    raise Unsupported("focal circle not strictly inside the end circle")
+                cdx, cdy, dr = cx - fx, cy - fy, r - fr
+                pdx, pdy = px - fx, py - fy
+                a_ = cdx * cdx + cdy * cdy - dr * dr
+                b_ = pdx * cdx + pdy * cdy + fr * dr
+                c_ = pdx * pdx + pdy * pdy - fr * fr
+                # a_ t^2 - 2 b_ t + c_ = 0 with a_ < 0 (focal circle inside): one root on each side
+                disc = b_ * b_ - a_ * c_
+                t = (b_ - math.sqrt(max(disc, 0.0))) / a_
+                if fr + t * dr < 0:
+                    t = (b_ + math.sqrt(max(disc, 0.0))) / a_
+            elif r <= 0:
                 t = 1.0
             else:
                 # two-point conical with focal radius 0: solve |f + (p-f)/t - c| = r  (SVG 1.1: focal clamped inside)
